@@ -8,30 +8,60 @@ use clvmr::error::EvalErr;
 
 const MAXA: usize = 62_500_000;
 const MAXP: usize = 62_500_000;
+/// concrete heap limit of the `_contents` variants: small enough that out-of-memory is reachable
+const CONCRETE_LIMIT: usize = 11;
+
+/// `_contents` variants: concrete heap limit `lim`, contents of all pre-existing nodes re-read afterwards.
+/// `_limits` variants: concrete heap limit 47 and a symbolic number (0..=6) of single-term concats of the
+/// 6-byte atom (each adds 6 bytes and one atom to the counts without touching the vectors), so that the heap
+/// size is anywhere between 7 and 47 of 47 - any small distance from the cap. (A symbolic `heap_limit`
+/// makes the success of the very first allocation symbolic, which makes every vector length symbolic
+/// in CBMC and the formula 5-10x larger - measured - so the distance is made symbolic instead.)
+fn mk_pre(contents: bool, lim: usize) -> Pre {
+    if contents {
+        pre_with(Some((1, 4)), Some(lim), true)
+    } else {
+        let mut p = pre_with(None, Some(47), true);
+        let f: usize = kani::any();
+        kani::assume(f <= 6);
+        let mut i = 0;
+        while i < 6 {
+            if i < f {
+                let r = p.a.new_concat(6, &[p.heap]);
+                kani::assume(r.is_ok());
+            }
+            i += 1;
+        }
+        p
+    }
+}
 
 /// Symbolic pre-state reachable through the public API only:
 /// any heap limit, any distance to the atom and pair caps, nodes of every representation.
 pub(crate) struct Pre {
     pub a: Allocator,
-    limit: usize,
-    heap: NodePtr,    // 6 symbolic bytes on the heap
-    hb: [u8; 6],
-    view: NodePtr,    // view into `heap` with symbolic bounds
-    vs: u32,
-    ve: u32,
-    small: NodePtr,   // inline small integer, symbolic value
-    sv: u32,
-    pair: NodePtr,
+    pub limit: usize,
+    pub heap: NodePtr,    // 6 symbolic bytes on the heap
+    pub hb: [u8; 6],
+    pub view: NodePtr,    // view into `heap` with symbolic bounds
+    pub vs: u32,
+    pub ve: u32,
+    pub small: NodePtr,   // inline small integer, symbolic value
+    pub sv: u32,
+    pub pair: NodePtr,
 }
 
 pub(crate) fn pre() -> Pre {
-    let limit: usize = kani::any();
+    pre_with(None, None, true)
+}
+
+pub(crate) fn pre_with(view: Option<(u32, u32)>, lim: Option<usize>, ghosts: bool) -> Pre {
+    let limit: usize = match lim { Some(l) => l, None => kani::any() };
     kani::assume(limit <= u32::MAX as usize && limit >= 7);
     let mut a = Allocator::new_limited(limit);
     let hb: [u8; 6] = kani::any();
     let heap = a.new_atom(&hb).unwrap();
-    let vs: u32 = kani::any();
-    let ve: u32 = kani::any();
+    let (vs, ve): (u32, u32) = match view { Some(v) => v, None => (kani::any(), kani::any()) };
     kani::assume(vs <= ve && ve <= 6);
     let view = a.new_substr(heap, vs, ve).unwrap();
     let sv: u32 = kani::any();
@@ -41,11 +71,13 @@ pub(crate) fn pre() -> Pre {
     let small = small.unwrap();
     let pair = a.new_pair(heap, small).unwrap();
     // any distance from the atom / pair caps
-    let ga: usize = kani::any();
-    let gp: usize = kani::any();
-    kani::assume(ga <= MAXA && gp <= MAXP);
-    kani::assume(a.add_ghost_atom(ga).is_ok());
-    kani::assume(a.add_ghost_pair(gp).is_ok());
+    if ghosts {
+        let ga: usize = kani::any();
+        let gp: usize = kani::any();
+        kani::assume(ga <= MAXA && gp <= MAXP);
+        kani::assume(a.add_ghost_atom(ga).is_ok());
+        kani::assume(a.add_ghost_pair(gp).is_ok());
+    }
     Pre { a, limit, heap, hb, view, vs, ve, small, sv, pair }
 }
 
@@ -125,308 +157,342 @@ fn expect_atom_result(
 }
 
 // ---- new_atom: any content of length 0..=5 (inline and heap outcomes)
-proof! {
-    #[kani::unwind(8)]
-    fn c12_step_new_atom() {
-        let mut p = pre();
-        let before = counts(&p.a);
-        let b: [u8; 5] = kani::any();
-        let len: usize = kani::any();
-        kani::assume(len <= 5);
-        let r = match len {
-            0 => p.a.new_atom(&[]),
-            1 => p.a.new_atom(&b[..1]),
-            2 => p.a.new_atom(&b[..2]),
-            3 => p.a.new_atom(&b[..3]),
-            4 => p.a.new_atom(&b[..4]),
-            _ => p.a.new_atom(&b[..5]),
-        };
-        expect_atom_result(&p, before, &r, len, true);
-        if let Ok(n) = r {
-            let at = p.a.atom(n);
-            let s = at.as_ref();
-            assert!(s.len() == len, "C14/new-atom-length");
-            let mut i = 0;
-            while i < len {
-                assert!(s[i] == b[i], "C14/new-atom-bytes");
-                i += 1;
-            }
-            kani::cover!(n.is_atom() && p.a.small_number(n).is_some(), "inline result");
-            kani::cover!(p.a.small_number(n).is_none(), "heap result");
+
+// ---- new_atom: any content of concrete length L (inline and heap outcomes); one harness per length
+fn step_new_atom<const L: usize>(contents: bool) {
+    let mut p = mk_pre(contents, if L == 5 { 15 } else { CONCRETE_LIMIT });
+    let before = counts(&p.a);
+    let b: [u8; L] = kani::any();
+    let r = p.a.new_atom(&b);
+    expect_atom_result(&p, before, &r, L, true);
+    if let Ok(n) = r {
+        let at = p.a.atom(n);
+        let s = at.as_ref();
+        assert!(s.len() == L, "C14/new-atom-length");
+        let mut i = 0;
+        while i < L {
+            assert!(s[i] == b[i], "C14/new-atom-bytes");
+            i += 1;
         }
-        kani::cover!(matches!(r, Err(EvalErr::TooManyAtoms)), "atom cap hit");
-        kani::cover!(matches!(r, Err(EvalErr::OutOfMemory)), "heap limit hit");
-        inv(&p);
-        contents_unchanged(&p);
-        std::mem::forget(p);
+        let on_heap = matches!(p.a.node(n), clvmr::allocator::NodeVisitor::Buffer(_));
+        kani::cover!(L >= 5 || !on_heap, "inline result (or length 5)");
+        kani::cover!(L == 0 || on_heap, "heap result (or length 0)");
     }
+    kani::cover!(matches!(r, Err(EvalErr::TooManyAtoms)), "atom cap hit");
+    kani::cover!(L == 0 || matches!(r, Err(EvalErr::OutOfMemory)), "heap limit hit (or length 0)");
+    inv(&p);
+    if contents { contents_unchanged(&p); }
+    std::mem::forget(p);
 }
+proof! { #[kani::unwind(8)] fn c12_step_new_atom0_limits() { step_new_atom::<0>(false); } }
+proof! { #[kani::unwind(8)] fn c12_step_new_atom0_contents() { step_new_atom::<0>(true); } }
+proof! { #[kani::unwind(8)] fn c12_step_new_atom1_limits() { step_new_atom::<1>(false); } }
+proof! { #[kani::unwind(8)] fn c12_step_new_atom1_contents() { step_new_atom::<1>(true); } }
+proof! { #[kani::unwind(8)] fn c12_step_new_atom2_limits() { step_new_atom::<2>(false); } }
+proof! { #[kani::unwind(8)] fn c12_step_new_atom2_contents() { step_new_atom::<2>(true); } }
+proof! { #[kani::unwind(8)] fn c12_step_new_atom3_limits() { step_new_atom::<3>(false); } }
+proof! { #[kani::unwind(8)] fn c12_step_new_atom3_contents() { step_new_atom::<3>(true); } }
+proof! { #[kani::unwind(8)] fn c12_step_new_atom4_limits() { step_new_atom::<4>(false); } }
+proof! { #[kani::unwind(8)] fn c12_step_new_atom4_contents() { step_new_atom::<4>(true); } }
+proof! { #[kani::unwind(8)] fn c12_step_new_atom5_limits() { step_new_atom::<5>(false); } }
+proof! { #[kani::unwind(8)] fn c12_step_new_atom5_contents() { step_new_atom::<5>(true); } }
 
 // ---- new_small_number
-proof! {
-    #[kani::unwind(8)]
-    fn c12_step_new_small_number() {
-        let mut p = pre();
-        let before = counts(&p.a);
-        let v: u32 = kani::any();
-        kani::assume(v < (1 << 26));
-        let r = p.a.new_small_number(v);
-        let len = min_len_u32(v);
-        expect_atom_result(&p, before, &r, len, true);
-        if let Ok(n) = r {
-            assert!(p.a.small_number(n) == Some(v), "C14/small-number-reads-back");
-            assert!(p.a.atom_len(n) == len, "C14/small-number-length-minimal");
-        }
-        kani::cover!(matches!(r, Err(EvalErr::TooManyAtoms)), "atom cap hit");
-        kani::cover!(matches!(r, Err(EvalErr::OutOfMemory)), "heap limit hit");
-        kani::cover!(r.is_ok() && len == 4, "4-byte small number");
-        inv(&p);
-        contents_unchanged(&p);
-        std::mem::forget(p);
+fn step_new_small_number(contents: bool) {
+    let mut p = mk_pre(contents, CONCRETE_LIMIT);
+    let before = counts(&p.a);
+    let v: u32 = kani::any();
+    kani::assume(v < (1 << 26));
+    let r = p.a.new_small_number(v);
+    let len = min_len_u32(v);
+    expect_atom_result(&p, before, &r, len, true);
+    if let Ok(n) = r {
+        assert!(p.a.small_number(n) == Some(v), "C14/small-number-reads-back");
+        assert!(p.a.atom_len(n) == len, "C14/small-number-length-minimal");
     }
+    kani::cover!(matches!(r, Err(EvalErr::TooManyAtoms)), "atom cap hit");
+    kani::cover!(matches!(r, Err(EvalErr::OutOfMemory)), "heap limit hit");
+    kani::cover!(r.is_ok() && len == 4, "4-byte small number");
+    inv(&p);
+    if contents { contents_unchanged(&p); }
+    std::mem::forget(p);
 }
+proof! { #[kani::unwind(8)] fn c12_step_new_small_number_limits() { step_new_small_number(false); } }
+proof! { #[kani::unwind(8)] fn c12_step_new_small_number_contents() { step_new_small_number(true); } }
+
+#[inline(never)]
+fn is_inline_parent(w: u8) -> bool { w == 2 }
 
 fn min_len_u32(v: u32) -> usize {
     if v == 0 { 0 } else if v < 0x80 { 1 } else if v < 0x8000 { 2 } else if v < 0x80_0000 { 3 } else if v < 0x8000_0000 { 4 } else { 5 }
 }
 
 // ---- new_pair
-proof! {
-    #[kani::unwind(8)]
-    fn c12_step_new_pair() {
-        let mut p = pre();
-        let before = counts(&p.a);
-        let which: u8 = kani::any();
-        let l = match which & 3 { 0 => p.heap, 1 => p.view, 2 => p.small, _ => p.pair };
-        let r_ = match (which >> 2) & 3 { 0 => p.heap, 1 => p.view, 2 => p.small, _ => p.pair };
-        let r = p.a.new_pair(l, r_);
-        let after = counts(&p.a);
-        match r {
-            Ok(n) => {
-                assert!(before.pairs + 1 <= MAXP, "C13/pair-cap-must-fail-when-exceeded");
-                assert!(after.pairs == before.pairs + 1, "C12/new-pair-counts-once");
-                assert!(after.atoms == before.atoms && after.heap == before.heap, "C12/pair-op-leaves-atoms-and-heap");
-                match p.a.sexp(n) {
-                    clvmr::allocator::SExp::Pair(x, y) => assert!(x == l && y == r_, "C14/pair-children"),
-                    _ => assert!(false, "C14/pair-children"),
-                }
-            }
-            Err(ref e) => {
-                assert!(matches!(e, EvalErr::TooManyPairs), "C13/unexpected-error-kind");
-                assert!(before.pairs + 1 > MAXP, "C13/too-many-pairs-only-when-cap-exceeded");
-                assert!(after.atoms == before.atoms && after.pairs == before.pairs && after.heap == before.heap,
-                    "C13/failed-op-leaves-counts-unchanged");
+fn step_new_pair(contents: bool) {
+    let mut p = mk_pre(contents, CONCRETE_LIMIT);
+    let before = counts(&p.a);
+    let which: u8 = kani::any();
+    let l = match which & 3 { 0 => p.heap, 1 => p.view, 2 => p.small, _ => p.pair };
+    let r_ = match (which >> 2) & 3 { 0 => p.heap, 1 => p.view, 2 => p.small, _ => p.pair };
+    let r = p.a.new_pair(l, r_);
+    let after = counts(&p.a);
+    match r {
+        Ok(n) => {
+            assert!(before.pairs + 1 <= MAXP, "C13/pair-cap-must-fail-when-exceeded");
+            assert!(after.pairs == before.pairs + 1, "C12/new-pair-counts-once");
+            assert!(after.atoms == before.atoms && after.heap == before.heap, "C12/pair-op-leaves-atoms-and-heap");
+            match p.a.sexp(n) {
+                clvmr::allocator::SExp::Pair(x, y) => assert!(x == l && y == r_, "C14/pair-children"),
+                _ => assert!(false, "C14/pair-children"),
             }
         }
-        kani::cover!(r.is_err(), "pair cap hit");
-        kani::cover!(r.is_ok(), "pair created");
-        inv(&p);
-        contents_unchanged(&p);
-        std::mem::forget(p);
+        Err(ref e) => {
+            assert!(matches!(e, EvalErr::TooManyPairs), "C13/unexpected-error-kind");
+            assert!(before.pairs + 1 > MAXP, "C13/too-many-pairs-only-when-cap-exceeded");
+            assert!(after.atoms == before.atoms && after.pairs == before.pairs && after.heap == before.heap,
+                "C13/failed-op-leaves-counts-unchanged");
+        }
     }
+    kani::cover!(r.is_err(), "pair cap hit");
+    kani::cover!(r.is_ok(), "pair created");
+    inv(&p);
+    if contents { contents_unchanged(&p); }
+    std::mem::forget(p);
 }
+proof! { #[kani::unwind(8)] fn c12_step_new_pair_limits() { step_new_pair(false); } }
+proof! { #[kani::unwind(8)] fn c12_step_new_pair_contents() { step_new_pair(true); } }
 
 // ---- add_ghost_atom / add_ghost_pair (used by run_program entry and by the back-reference decoder)
-proof! {
-    #[kani::unwind(8)]
-    fn c12_step_add_ghost() {
-        let mut p = pre();
-        let before = counts(&p.a);
-        let n: usize = kani::any();
-        kani::assume(n <= 2 * MAXA);
-        let atoms: bool = kani::any();
-        let r = if atoms { p.a.add_ghost_atom(n) } else { p.a.add_ghost_pair(n) };
-        let after = counts(&p.a);
-        let cur = if atoms { before.atoms } else { before.pairs };
-        match r {
-            Ok(()) => {
-                assert!(cur + n <= MAXA, "C13/ghost-cap-must-fail-when-exceeded");
-                if atoms {
-                    assert!(after.atoms == before.atoms + n && after.pairs == before.pairs, "C12/ghost-atoms-count");
-                } else {
-                    assert!(after.pairs == before.pairs + n && after.atoms == before.atoms, "C12/ghost-pairs-count");
-                }
-                assert!(after.heap == before.heap, "C12/ghost-leaves-heap");
+fn step_add_ghost(contents: bool) {
+    let mut p = mk_pre(contents, CONCRETE_LIMIT);
+    let before = counts(&p.a);
+    let n: usize = kani::any();
+    kani::assume(n <= 2 * MAXA);
+    let atoms: bool = kani::any();
+    let r = if atoms { p.a.add_ghost_atom(n) } else { p.a.add_ghost_pair(n) };
+    let after = counts(&p.a);
+    let cur = if atoms { before.atoms } else { before.pairs };
+    match r {
+        Ok(()) => {
+            assert!(cur + n <= MAXA, "C13/ghost-cap-must-fail-when-exceeded");
+            if atoms {
+                assert!(after.atoms == before.atoms + n && after.pairs == before.pairs, "C12/ghost-atoms-count");
+            } else {
+                assert!(after.pairs == before.pairs + n && after.atoms == before.atoms, "C12/ghost-pairs-count");
             }
-            Err(ref e) => {
-                assert!(cur + n > MAXA, "C13/ghost-fails-only-when-cap-exceeded");
-                if atoms {
-                    assert!(matches!(e, EvalErr::TooManyAtoms), "C13/unexpected-error-kind");
-                } else {
-                    assert!(matches!(e, EvalErr::TooManyPairs), "C13/unexpected-error-kind");
+            assert!(after.heap == before.heap, "C12/ghost-leaves-heap");
+        }
+        Err(ref e) => {
+            assert!(cur + n > MAXA, "C13/ghost-fails-only-when-cap-exceeded");
+            if atoms {
+                assert!(matches!(e, EvalErr::TooManyAtoms), "C13/unexpected-error-kind");
+            } else {
+                assert!(matches!(e, EvalErr::TooManyPairs), "C13/unexpected-error-kind");
+            }
+            assert!(after.atoms == before.atoms && after.pairs == before.pairs && after.heap == before.heap,
+                "C13/failed-op-leaves-counts-unchanged");
+        }
+    }
+    kani::cover!(r.is_err() && atoms, "ghost atom cap hit");
+    kani::cover!(r.is_err() && !atoms, "ghost pair cap hit");
+    kani::cover!(r.is_ok() && n > 0, "ghost added");
+    inv(&p);
+    if contents { contents_unchanged(&p); }
+    std::mem::forget(p);
+}
+proof! { #[kani::unwind(8)] fn c12_step_add_ghost_limits() { step_add_ghost(false); } }
+proof! { #[kani::unwind(8)] fn c12_step_add_ghost_contents() { step_add_ghost(true); } }
+
+// ---- new_substr of one parent representation W (0 heap, 1 view, 2 inline), symbolic bounds
+fn step_new_substr<const W: u8>(contents: bool) {
+    let mut p = mk_pre(contents, CONCRETE_LIMIT);
+    let before = counts(&p.a);
+    let (node, plen) = match W {
+        0 => (p.heap, 6usize),
+        1 => (p.view, (p.ve - p.vs) as usize),
+        _ => (p.small, min_len_u32(p.sv)),
+    };
+    let s: u32 = kani::any();
+    let e: u32 = kani::any();
+    let r = p.a.new_substr(node, s, e);
+    let after = counts(&p.a);
+    let in_bounds = s <= e && (e as usize) <= plen;
+    let mut saw_noncanon = false;
+    let mut noncanon_grew = false;
+    let mut noncanon_over = false;
+    let mut saw_shared = false;
+    match &r {
+        Ok(n) => {
+            assert!(in_bounds, "C12/substr-out-of-bounds-must-fail");
+            assert!(before.atoms + 1 <= MAXA, "C13/atom-cap-must-fail-when-exceeded");
+            assert!(after.atoms == before.atoms + 1, "C12/new-atom-counts-once");
+            assert!(after.pairs == before.pairs, "C12/pairs-unchanged-by-atom-op");
+            if is_inline_parent(W) && matches!(p.a.node(*n), clvmr::allocator::NodeVisitor::Buffer(_)) {
+                // substring of an inline atom whose slice is not a canonical small integer
+                // (checked at the very end, after the cover points: a failing assertion ends the path)
+                noncanon_grew = after.heap != before.heap;
+                noncanon_over = after.heap > p.limit;
+                saw_noncanon = true;
+            } else {
+                assert!(after.heap == before.heap, "C12/substr-shares-parent-bytes");
+                assert!(after.heap <= p.limit, "C13/heap-size-within-limit");
+                saw_shared = true;
+            }
+            assert!(p.a.atom_len(*n) == (e - s) as usize, "C14/substr-length");
+            if contents {
+                // the new atom's bytes are the parent's slice
+                let at = p.a.atom(*n);
+                let sl = at.as_ref();
+                let mut i = 0usize;
+                while i < sl.len() {
+                    let expect = match W {
+                        0 => p.hb[s as usize + i],
+                        1 => p.hb[p.vs as usize + s as usize + i],
+                        _ => (p.sv >> (8 * (plen - 1 - (s as usize + i)))) as u8,
+                    };
+                    assert!(sl[i] == expect, "C14/substr-bytes");
+                    i += 1;
                 }
-                assert!(after.atoms == before.atoms && after.pairs == before.pairs && after.heap == before.heap,
-                    "C13/failed-op-leaves-counts-unchanged");
             }
         }
-        kani::cover!(r.is_err() && atoms, "ghost atom cap hit");
-        kani::cover!(r.is_err() && !atoms, "ghost pair cap hit");
-        kani::cover!(r.is_ok() && n > 0, "ghost added");
-        inv(&p);
-        std::mem::forget(p);
+        Err(err) => {
+            match err {
+                EvalErr::TooManyAtoms => assert!(before.atoms + 1 > MAXA, "C13/too-many-atoms-only-when-cap-exceeded"),
+                EvalErr::InvalidAllocArg(_, _) => assert!(!in_bounds, "C12/substr-in-bounds-must-succeed"),
+                _ => assert!(false, "C13/unexpected-error-kind"),
+            }
+            assert!(after.atoms == before.atoms && after.pairs == before.pairs && after.heap == before.heap,
+                "C13/failed-op-leaves-counts-unchanged");
+        }
     }
+    kani::cover!(matches!(r, Err(EvalErr::TooManyAtoms)), "atom cap hit");
+    kani::cover!(matches!(r, Err(EvalErr::InvalidAllocArg(_, _))), "bounds error");
+    kani::cover!(W != 2 || saw_noncanon, "inline parent, non-canonical slice (inline-parent harness only)");
+    kani::cover!(saw_shared, "substr sharing the parent's bytes");
+    assert!(after.atoms <= MAXA, "C13/atom-count-within-cap");
+    if contents { contents_unchanged(&p); }
+    kani::cover!(W != 2 || noncanon_grew, "inline parent, non-canonical slice: heap grew");
+    // (the C13 assertion first: a failing assertion ends the path, and exceeding the limit implies growth)
+    assert!(!noncanon_over, "C13/new_substr/inline-parent-noncanonical-slice-heap-limit");
+    assert!(!noncanon_grew, "C12/new_substr/inline-parent-noncanonical-slice");
+    std::mem::forget(p);
 }
+proof! { #[kani::unwind(8)] fn c12_step_new_substr_heap_limits() { step_new_substr::<0>(false); } }
+proof! { #[kani::unwind(8)] fn c12_step_new_substr_heap_contents() { step_new_substr::<0>(true); } }
+proof! { #[kani::unwind(8)] fn c12_step_new_substr_view_limits() { step_new_substr::<1>(false); } }
+proof! { #[kani::unwind(8)] fn c12_step_new_substr_view_contents() { step_new_substr::<1>(true); } }
+proof! { #[kani::unwind(8)] fn c12_step_new_substr_inline_limits() { step_new_substr::<2>(false); } }
+proof! { #[kani::unwind(8)] fn c12_step_new_substr_inline_contents() { step_new_substr::<2>(true); } }
 
-// ---- new_substr of every representation, symbolic bounds
-proof! {
-    #[kani::unwind(8)]
-    fn c12_step_new_substr() {
-        let mut p = pre();
-        let before = counts(&p.a);
-        let which: u8 = kani::any();
-        kani::assume(which < 3);
-        let (node, plen) = match which {
+// ---- new_concat with K terms of concrete representations (0 heap, 1 view, 2 inline; one harness per
+// combination), any declared size
+fn step_new_concat<const K: usize>(kinds: [u8; K], contents: bool) {
+    let mut p = mk_pre(contents, 24);
+    let before = counts(&p.a);
+    let mut terms = [NodePtr::NIL; K];
+    let mut total = 0usize;
+    let mut i = 0;
+    while i < K {
+        let (n, l) = match kinds[i] {
             0 => (p.heap, 6usize),
             1 => (p.view, (p.ve - p.vs) as usize),
             _ => (p.small, min_len_u32(p.sv)),
         };
-        let s: u32 = kani::any();
-        let e: u32 = kani::any();
-        let r = p.a.new_substr(node, s, e);
-        let after = counts(&p.a);
-        let in_bounds = s <= e && (e as usize) <= plen;
-        match &r {
-            Ok(n) => {
-                assert!(in_bounds, "C12/substr-out-of-bounds-must-fail");
-                assert!(before.atoms + 1 <= MAXA, "C13/atom-cap-must-fail-when-exceeded");
-                assert!(after.atoms == before.atoms + 1, "C12/new-atom-counts-once");
-                assert!(after.pairs == before.pairs, "C12/pairs-unchanged-by-atom-op");
-                if which == 2 && p.a.small_number(*n).is_none() {
-                    // substring of an inline atom whose slice is not a canonical small integer
-                    assert!(after.heap == before.heap, "C12/new_substr/inline-parent-noncanonical-slice");
-                    assert!(after.heap <= p.limit, "C13/new_substr/inline-parent-noncanonical-slice-heap-limit");
-                    kani::cover!(true, "inline parent, non-canonical slice");
-                } else {
-                    assert!(after.heap == before.heap, "C12/substr-shares-parent-bytes");
-                }
-                assert!(p.a.atom_len(*n) == (e - s) as usize, "C14/substr-length");
-                kani::cover!(which == 0, "substr of heap atom");
-                kani::cover!(which == 1, "substr of view");
-                kani::cover!(which == 2 && p.a.small_number(*n).is_some(), "substr of inline atom, canonical slice");
-            }
-            Err(err) => {
-                match err {
-                    EvalErr::TooManyAtoms => assert!(before.atoms + 1 > MAXA, "C13/too-many-atoms-only-when-cap-exceeded"),
-                    EvalErr::InvalidAllocArg(_, _) => assert!(!in_bounds, "C12/substr-in-bounds-must-succeed"),
-                    _ => assert!(false, "C13/unexpected-error-kind"),
-                }
-                assert!(after.atoms == before.atoms && after.pairs == before.pairs && after.heap == before.heap,
-                    "C13/failed-op-leaves-counts-unchanged");
-            }
-        }
-        kani::cover!(matches!(r, Err(EvalErr::TooManyAtoms)), "atom cap hit");
-        kani::cover!(matches!(r, Err(EvalErr::InvalidAllocArg(_, _))), "bounds error");
-        assert!(after.atoms <= MAXA, "C13/atom-count-within-cap");
-        contents_unchanged(&p);
-        std::mem::forget(p);
+        terms[i] = n;
+        total += l;
+        i += 1;
     }
-}
-
-// ---- new_concat with 0..=3 terms of every representation, matching and non-matching size
-proof! {
-    #[kani::unwind(8)]
-    fn c12_step_new_concat() {
-        let mut p = pre();
-        let before = counts(&p.a);
-        let k: usize = kani::any();
-        kani::assume(k <= 3);
-        let mut terms = [NodePtr::NIL; 3];
-        let mut total = 0usize;
-        let mut i = 0;
-        while i < 3 {
-            let w: u8 = kani::any();
-            kani::assume(w < 3);
-            let (n, l) = match w {
-                0 => (p.heap, 6usize),
-                1 => (p.view, (p.ve - p.vs) as usize),
-                _ => (p.small, min_len_u32(p.sv)),
-            };
-            terms[i] = n;
-            if i < k {
-                total += l;
-            }
-            i += 1;
+    let size: usize = kani::any();
+    kani::assume(size <= 32);
+    let r = p.a.new_concat(size, &terms);
+    let after = counts(&p.a);
+    match &r {
+        Ok(n) => {
+            assert!(size == total, "C12/concat-wrong-size-must-fail");
+            assert!(before.atoms + 1 <= MAXA, "C13/atom-cap-must-fail-when-exceeded");
+            assert!(before.heap + size <= p.limit, "C13/heap-cap-must-fail-when-exceeded");
+            assert!(after.atoms == before.atoms + 1, "C12/new-atom-counts-once");
+            assert!(after.pairs == before.pairs, "C12/pairs-unchanged-by-atom-op");
+            assert!(after.heap == before.heap + size, "C12/heap-grows-by-new-bytes");
+            assert!(p.a.atom_len(*n) == size, "C14/concat-length");
+            kani::cover!(true, "concat succeeded");
         }
-        let size: usize = kani::any();
-        kani::assume(size <= 32);
-        let r = match k {
-            0 => p.a.new_concat(size, &[]),
-            1 => p.a.new_concat(size, &terms[..1]),
-            2 => p.a.new_concat(size, &terms[..2]),
-            _ => p.a.new_concat(size, &terms[..3]),
-        };
-        let after = counts(&p.a);
-        match &r {
-            Ok(n) => {
-                assert!(size == total, "C12/concat-wrong-size-must-fail");
-                assert!(before.atoms + 1 <= MAXA, "C13/atom-cap-must-fail-when-exceeded");
-                assert!(before.heap + size <= p.limit, "C13/heap-cap-must-fail-when-exceeded");
-                assert!(after.atoms == before.atoms + 1, "C12/new-atom-counts-once");
-                assert!(after.pairs == before.pairs, "C12/pairs-unchanged-by-atom-op");
-                assert!(after.heap == before.heap + size, "C12/heap-grows-by-new-bytes");
-                assert!(p.a.atom_len(*n) == size, "C14/concat-length");
-                kani::cover!(k == 0, "concat of nothing");
-                kani::cover!(k == 1, "concat of one (aliases the operand)");
-                kani::cover!(k == 3, "concat of three");
+        Err(err) => {
+            match err {
+                EvalErr::TooManyAtoms => assert!(before.atoms + 1 > MAXA, "C13/too-many-atoms-only-when-cap-exceeded"),
+                EvalErr::OutOfMemory => assert!(before.heap + size > p.limit, "C13/out-of-memory-only-when-limit-exceeded"),
+                EvalErr::InternalError(_, _) => assert!(size != total, "C12/concat-right-size-must-succeed"),
+                _ => assert!(false, "C13/unexpected-error-kind"),
             }
-            Err(err) => {
-                match err {
-                    EvalErr::TooManyAtoms => assert!(before.atoms + 1 > MAXA, "C13/too-many-atoms-only-when-cap-exceeded"),
-                    EvalErr::OutOfMemory => assert!(before.heap + size > p.limit, "C13/out-of-memory-only-when-limit-exceeded"),
-                    EvalErr::InternalError(_, _) => assert!(size != total, "C12/concat-right-size-must-succeed"),
-                    _ => assert!(false, "C13/unexpected-error-kind"),
-                }
-                assert!(after.atoms == before.atoms && after.pairs == before.pairs && after.heap == before.heap,
-                    "C13/failed-op-leaves-counts-unchanged");
-            }
+            assert!(after.atoms == before.atoms && after.pairs == before.pairs && after.heap == before.heap,
+                "C13/failed-op-leaves-counts-unchanged");
         }
-        kani::cover!(matches!(r, Err(EvalErr::OutOfMemory)), "heap limit hit");
-        kani::cover!(matches!(r, Err(EvalErr::InternalError(_, _))), "size mismatch");
-        inv(&p);
-        contents_unchanged(&p);
-        std::mem::forget(p);
     }
+    kani::cover!(matches!(r, Err(EvalErr::OutOfMemory)), "heap limit hit");
+    kani::cover!(matches!(r, Err(EvalErr::InternalError(_, _))), "size mismatch");
+    inv(&p);
+    if contents { contents_unchanged(&p); }
+    std::mem::forget(p);
 }
+proof! { #[kani::unwind(8)] fn c12_step_new_concat0_limits() { step_new_concat::<0>([], false); } }
+proof! { #[kani::unwind(8)] fn c12_step_new_concat0_contents() { step_new_concat::<0>([], true); } }
+proof! { #[kani::unwind(8)] fn c12_step_new_concat1_heap_limits() { step_new_concat::<1>([0], false); } }
+proof! { #[kani::unwind(8)] fn c12_step_new_concat1_view_limits() { step_new_concat::<1>([1], false); } }
+proof! { #[kani::unwind(8)] fn c12_step_new_concat1_inline_limits() { step_new_concat::<1>([2], false); } }
+proof! { #[kani::unwind(8)] fn c12_step_new_concat1_inline_contents() { step_new_concat::<1>([2], true); } }
+proof! { #[kani::unwind(8)] fn c12_step_new_concat2_heap_inline_limits() { step_new_concat::<2>([0, 2], false); } }
+proof! { #[kani::unwind(8)] fn c12_step_new_concat2_inline_view_limits() { step_new_concat::<2>([2, 1], false); } }
+proof! { #[kani::unwind(8)] fn c12_step_new_concat2_view_heap_limits() { step_new_concat::<2>([1, 0], false); } }
+proof! { #[kani::unwind(8)] fn c12_step_new_concat2_inline_inline_limits() { step_new_concat::<2>([2, 2], false); } }
+proof! { #[kani::unwind(8)] fn c12_step_new_concat2_heap_inline_contents() { step_new_concat::<2>([0, 2], true); } }
+proof! { #[kani::unwind(8)] fn c12_step_new_concat3_heap_view_inline_limits() { step_new_concat::<3>([0, 1, 2], false); } }
+proof! { #[kani::unwind(8)] fn c12_step_new_concat3_inline_heap_view_contents() { step_new_concat::<3>([2, 0, 1], true); } }
 
-// ---- checkpoint / restore (full and transparent) around a symbolic batch of allocations
-proof! {
-    #[kani::unwind(8)]
-    fn c12_step_checkpoints() {
-        let mut p = pre();
-        let c0 = counts(&p.a);
-        let transparent: bool = kani::any();
-        let cp = p.a.checkpoint();
-        let tcp = p.a.transparent_checkpoint();
-        // a batch of later allocations of every kind (each may fail near a cap: then it is skipped)
-        let b: [u8; 5] = kani::any();
-        let _ = p.a.new_atom(&b);
-        let sv: u32 = kani::any();
-        kani::assume(sv < (1 << 26));
-        let _ = p.a.new_small_number(sv);
-        let _ = p.a.new_pair(p.heap, p.pair);
-        let s: u32 = kani::any();
-        let e: u32 = kani::any();
-        let _ = p.a.new_substr(p.heap, s, e);
-        let _ = p.a.new_concat(12, &[p.heap, p.heap]);
-        let c1 = counts(&p.a);
-        kani::cover!(c1.atoms == c0.atoms + 4 && c1.pairs == c0.pairs + 1, "whole batch allocated");
-        if transparent {
-            p.a.restore_transparent_checkpoint(&tcp);
-            let c2 = counts(&p.a);
-            assert!(c2.atoms == c1.atoms && c2.pairs == c1.pairs && c2.heap == c1.heap,
-                "C12/transparent-restore-leaves-counts");
-        } else {
-            p.a.restore_checkpoint(&cp);
-            let c2 = counts(&p.a);
-            assert!(c2.atoms == c0.atoms && c2.pairs == c0.pairs && c2.heap == c0.heap,
-                "C12/full-restore-resets-counts");
-        }
-        inv(&p);
-        contents_unchanged(&p);
-        // the allocator keeps working after the restore: one more atom counts once
-        let c3 = counts(&p.a);
+// ---- checkpoint / restore (full or transparent) around a batch of allocations
+fn step_checkpoints(contents: bool, transparent: bool) {
+    let mut p = mk_pre(contents, 64);
+    let c0 = counts(&p.a);
+    let cp = p.a.checkpoint();
+    let tcp = p.a.transparent_checkpoint();
+    // a batch of later allocations of every kind (each may fail near a cap: then it is skipped)
+    let b: [u8; 5] = kani::any();
+    let _ = p.a.new_atom(&b);
+    let sv: u32 = kani::any();
+    kani::assume(sv < (1 << 26));
+    let _ = if contents { Ok(p.small) } else { p.a.new_small_number(sv) };
+    let _ = p.a.new_pair(p.heap, p.pair);
+    let s: u32 = kani::any();
+    let e: u32 = kani::any();
+    let _ = p.a.new_substr(p.heap, s, e);
+    let c1 = counts(&p.a);
+    kani::cover!(c1.atoms == c0.atoms + (if contents { 2 } else { 3 }) && c1.pairs == c0.pairs + 1, "whole batch allocated");
+    if transparent {
+        p.a.restore_transparent_checkpoint(&tcp);
+        let c2 = counts(&p.a);
+        assert!(c2.atoms == c1.atoms && c2.pairs == c1.pairs && c2.heap == c1.heap,
+            "C12/transparent-restore-leaves-counts");
+    } else {
+        p.a.restore_checkpoint(&cp);
+        let c2 = counts(&p.a);
+        assert!(c2.atoms == c0.atoms && c2.pairs == c0.pairs && c2.heap == c0.heap,
+            "C12/full-restore-resets-counts");
+    }
+    inv(&p);
+    if contents { contents_unchanged(&p); }
+    // the allocator keeps working after the restore: one more atom counts once
+    let c3 = counts(&p.a);
+    if !contents {
         let r = p.a.new_atom(&b);
         expect_atom_result(&p, c3, &r, 5, true);
-        std::mem::forget(p);
+    } else {
+        // a node created after the restore reuses the released slots; earlier nodes must be unaffected
+        let r = p.a.new_pair(p.small, p.view);
+        kani::assume(r.is_ok());
+        contents_unchanged(&p);
     }
+    std::mem::forget(p);
 }
+proof! { #[kani::unwind(8)] fn c12_step_checkpoint_full_limits() { step_checkpoints(false, false); } }
+proof! { #[kani::unwind(8)] fn c12_step_checkpoint_full_contents() { step_checkpoints(true, false); } }
+proof! { #[kani::unwind(8)] fn c12_step_checkpoint_transparent_limits() { step_checkpoints(false, true); } }
+proof! { #[kani::unwind(8)] fn c12_step_checkpoint_transparent_contents() { step_checkpoints(true, true); } }
